@@ -27,4 +27,4 @@ cd /verif
 git -C /repo worktree remove --force $wt
 rm -rf /tmp/seed/v-$id-target
 echo "== (4) the check, in isolation"
-tools/mutcheck.py $id $out/patch.diff 2>&1 | grep -E "VIOLATION|mutcheck:|theorems checked|obligation|KNOWN" | tail -6
+env -u CARGO_TARGET_DIR tools/mutcheck.py $id $out/patch.diff 2>&1 | grep -E "VIOLATION|mutcheck:|theorems checked|obligation|KNOWN" | tail -6
